@@ -2,9 +2,9 @@ package rig
 
 import (
 	"errors"
+	"sync"
 	"fmt"
 	"net"
-	"os"
 	"syscall"
 	"time"
 	"unsafe"
@@ -25,6 +25,23 @@ type Peer struct {
 	stale map[uint32]bool
 	// RecoveryTS is what the peer sends as its Recovery Time Stamp.
 	RecoveryTS time.Time
+
+	in     chan Dgram
+	closed chan struct{}
+	hbMu   sync.Mutex
+	// HBReqs records every Heartbeat Request the agent originated towards this peer.
+	HBReqs []HBReq
+	// OnHB decides whether (and after which delay) the n-th received agent heartbeat is answered.
+	// nil means: answer at once.
+	OnHB func(n int, seq uint32) (answer bool, delay time.Duration)
+	// Others records other agent-originated requests (Association Setup, Session Report) as they arrive.
+}
+
+// HBReq is one Heartbeat Request received from the agent.
+type HBReq struct {
+	Seq uint32
+	TS  time.Time
+	Raw []byte
 }
 
 // Dgram is one received datagram with the kernel receive timestamp.
@@ -61,10 +78,87 @@ func NewPeer(local, remote string) (*Peer, error) {
 	}
 	c := pc.(*net.UDPConn)
 	_ = c.SetReadBuffer(4 << 20)
-	return &Peer{Local: c.LocalAddr().(*net.UDPAddr), Remote: ra, c: c, RecoveryTS: time.Unix(1700000000, 0)}, nil
+	p := &Peer{Local: c.LocalAddr().(*net.UDPAddr), Remote: ra, c: c, RecoveryTS: time.Unix(1700000000, 0),
+		in: make(chan Dgram, 4096), closed: make(chan struct{})}
+	go p.reader()
+	return p, nil
 }
 
-func (p *Peer) Close() { p.c.Close() }
+func (p *Peer) Close() {
+	select {
+	case <-p.closed:
+	default:
+		close(p.closed)
+	}
+	p.c.Close()
+}
+
+// reader demultiplexes: Heartbeat Requests of the agent are recorded and answered according to
+// OnHB in the background (so that an idle harness never looks like a dead peer); everything
+// else is queued for Recv.
+func (p *Peer) reader() {
+	for {
+		d, err := p.readOne()
+		if err != nil {
+			select {
+			case <-p.closed:
+				return
+			default:
+			}
+			if errors.Is(err, net.ErrClosed) {
+				return
+			}
+			time.Sleep(time.Millisecond)
+			continue
+		}
+		if typ, seq, ok := hdrTypeSeq(d.B); ok && typ == message.MsgTypeHeartbeatRequest {
+			p.hbMu.Lock()
+			p.HBReqs = append(p.HBReqs, HBReq{Seq: seq, TS: d.TS, Raw: d.B})
+			n := len(p.HBReqs)
+			on := p.OnHB
+			p.hbMu.Unlock()
+			answer, delay := true, time.Duration(0)
+			if on != nil {
+				answer, delay = on(n, seq)
+			}
+			if answer {
+				resp := message.NewHeartbeatResponse(seq, ie.NewRecoveryTimeStamp(p.RecoveryTS))
+				if delay > 0 {
+					go func() {
+						time.Sleep(delay)
+						_ = p.Send(resp)
+					}()
+				} else {
+					_ = p.Send(resp)
+				}
+			}
+			continue
+		}
+		select {
+		case p.in <- d:
+		default: // queue full: drop the oldest
+			select {
+			case <-p.in:
+			default:
+			}
+			p.in <- d
+		}
+	}
+}
+
+// SetOnHB installs the heartbeat policy.
+func (p *Peer) SetOnHB(f func(n int, seq uint32) (bool, time.Duration)) {
+	p.hbMu.Lock()
+	p.OnHB = f
+	p.hbMu.Unlock()
+}
+
+// HBSeen returns a copy of the agent heartbeats received so far.
+func (p *Peer) HBSeen() []HBReq {
+	p.hbMu.Lock()
+	defer p.hbMu.Unlock()
+	return append([]HBReq(nil), p.HBReqs...)
+}
 
 // SendRaw sends bytes to the agent.
 func (p *Peer) SendRaw(b []byte) error {
@@ -90,21 +184,33 @@ func (p *Peer) Send(m message.Message) error {
 // ErrTimeout is returned by Recv when nothing arrived in time.
 var ErrTimeout = errors.New("timeout")
 
-// Recv waits up to d for one datagram.
+// Recv waits up to d for one datagram that is not an agent heartbeat.
 func (p *Peer) Recv(d time.Duration) (Dgram, error) {
+	if d <= 0 {
+		select {
+		case dg := <-p.in:
+			return dg, nil
+		default:
+			return Dgram{}, ErrTimeout
+		}
+	}
+	t := time.NewTimer(d)
+	defer t.Stop()
+	select {
+	case dg := <-p.in:
+		return dg, nil
+	case <-t.C:
+		return Dgram{}, ErrTimeout
+	case <-p.closed:
+		return Dgram{}, net.ErrClosed
+	}
+}
+
+func (p *Peer) readOne() (Dgram, error) {
 	buf := make([]byte, 65536)
 	oob := make([]byte, 256)
-	_ = p.c.SetReadDeadline(time.Now().Add(d))
 	n, oobn, _, _, err := p.c.ReadMsgUDP(buf, oob)
 	if err != nil {
-		if errors.Is(err, os.ErrDeadlineExceeded) {
-			return Dgram{}, ErrTimeout
-		}
-		var ne net.Error
-		if errors.As(err, &ne) && ne.Timeout() {
-			return Dgram{}, ErrTimeout
-		}
-		// ICMP port unreachable shows up as ECONNREFUSED on unconnected sockets rarely; report it.
 		return Dgram{}, err
 	}
 	ts := time.Now()
